@@ -13,7 +13,7 @@
 From Coq Require Import List ZArith Bool.
 From TM Require Import Gram.Derive.
 From TM Require Import Gram.Cfg Gram.LalrRef Gram.Prec Gram.Prec_proofs Gram.PTables Gram.LalrTables.
-From TM Require Import Gram.LalrSpec Gram.LalrSpec_proofs Gram.LalrSpec_proofs2 Gram.LalrSpec_proofs3 Gram.LalrCert Gram.LalrCert_proofs Gram.LalrBuild_proofs.
+From TM Require Import Gram.LalrSpec Gram.LalrSpec_proofs Gram.LalrSpec_proofs2 Gram.LalrSpec_proofs3 Gram.LalrCert Gram.LalrCert_proofs Gram.LalrBuild_proofs Gram.LalrTables_proofs.
 Import ListNotations.
 Local Open Scope Z_scope.
 
@@ -97,6 +97,17 @@ Theorem C03_lr1_valid_is_textbook :
   forall i gamma it x, lr1_valid g i gamma it x <-> lr1_valid_tb g i gamma it x.
 Proof. exact lr1_valid_textbook. Qed.
 
+(* What is compared with textmapper: the lookahead set the reference shows for reduction r in state q (v_la_all,
+   also the input of the cell oracle canonical_cell) is exactly the LALR(1) lookahead set of the completed item
+   of r in q, whenever the certificate holds for the grammar (it is evaluated for every generated grammar). *)
+Theorem C03_reference_views_are_LALR1 :
+  forall g fuel, ref_cert g fuel = true ->
+  let a := fst (build_automaton g fuel) in
+  forall q v, nth_error (ro_views (reference g fuel)) q = Some v ->
+  forall j r L, nth_error (v_reduce v) j = Some r -> nth_error (v_la_all v) j = Some L ->
+  forall x, In x L <-> lalr1 g a (Z.of_nat q) (r, rule_len g r) x.
+Proof. exact reference_views_la. Qed.
+
 (* With the certificate the automaton is also the complete collection: every viable prefix gamma (LR(1)-valid
    item with lookahead x) leads to a state, and x is in that state's table entry. *)
 Theorem C03_lalr_la_covers :
@@ -161,3 +172,4 @@ Print Assumptions C03_build_loop_sound.
 Print Assumptions C03_lalr_la_covers.
 Print Assumptions C03_nullable_is_derives_empty.
 Print Assumptions C03_first_contains_derivable_firsts.
+Print Assumptions C03_reference_views_are_LALR1.
